@@ -106,7 +106,7 @@ J gen_tunnel(uint64_t seed, const J &ov)
 	if (r.chance(0.3)) cfg.set("srv_mtu", (int)r.range(300, 1400));
 	cfg.set("residue", (int)r.range(0, 4));
 	J cl = J::arr();
-	for (int i = 0; i < ncli; i++) { J c = J::obj(); gen_client_cfg(r, c, true, mode != "clean" || r.chance(0.2), (int)dom.size(), mode == "recover" ? 20 : 2); cl.push(c); }
+	for (int i = 0; i < ncli; i++) { J c = J::obj(); gen_client_cfg(r, c, true, mode != "clean" || r.chance(0.2), (int)dom.size(), mode == "recover" ? 20 : mode == "redeliver" ? 100 : 2); cl.push(c); }
 	if (ov.has("qtype")) for (auto &c : cl.a) c.set("qtype", ov.gets("qtype"));
 	if (ov.has("downenc")) for (auto &c : cl.a) c.set("downenc", ov.gets("downenc"));
 	if (ov.has("lazy")) for (auto &c : cl.a) c.set("lazy", (int)ov.geti("lazy"));
@@ -236,7 +236,7 @@ J gen_tunnel(uint64_t seed, const J &ov)
 	} else if (mode == "redeliver") {
 		// C16: otherwise clean path; the only fault kind is re-delivery of queries (verbatim, new id, re-cased, other source)
 		double W = 10 + r.uniform() * 30;
-		int maxlen = r.chance(0.8) ? 1200 : 3000;
+		int maxlen = 1200;       // every packet fits 16 fragments of >= 100 bytes: what happens to packets that cannot be delivered at all is not C16's subject
 		bool b32 = r.chance(0.55);
 		if (b32) cfg.set("relay", gen_relay(r, "base32"));
 		else if (r.chance(0.3)) cfg.set("relay", gen_relay(r, r.chance(0.5) ? "base64" : "base64u"));
